@@ -8,7 +8,7 @@ from . import ty as T
 from . import spec as S
 from .symex import (SV, OutOfSubset, ContractDrift, XREAL, fresh, fresh_sv, truthy, coerce, unify, equal,
                     seq_len, seq_get, seq_append, seq_concat, seq_slice, seq_lit, map_has, map_get, map_set,
-                    map_del, tree_empty_node, tree_set, tree_del, to_real, _fresh_counter)
+                    map_del, tree_empty_node, tree_set, tree_del, to_real, _fresh_counter, tree_number, tree_is_number)
 
 IGNORED_CALLS = {'print', 'pp', 'pf', 'print_progress_bar', '_print_summary', 'warn'}
 IGNORED_ATTR_BASES = {'log', 'warnings', 'logging'}
@@ -216,6 +216,12 @@ def eval_call(ex, node, st, want):
             t = ex.ev(node.args[0], st, T.TREE)
             k = ex.ev(node.args[1], st, T.ATOM)
             return SV(T.TREE, T.tkids(t.t)[k.t])
+        if name == 'is_number':
+            t = ex.ev(node.args[0], st, T.TREE)
+            return SV(T.BOOL, tree_is_number(t.t))
+        if name == 'number_of':
+            t = ex.ev(node.args[0], st, T.TREE)
+            return SV(T.REAL, tree_number(t.t))
         if name == 'tree_put':
             t = ex.ev(node.args[0], st, T.TREE)
             k = ex.ev(node.args[1], st, T.ATOM)
